@@ -112,6 +112,7 @@ def execute(h):
     model = decl.RefDir()
     model.noref_scaled = True
     model.composite_symbols = True
+    model.int_terms = []
     env = decl.Env()
     if cfg['variant'] == 'predefined':
         decl.seed_catalogue(model, env)
@@ -349,7 +350,13 @@ def execute(h):
                     mt['catalogue']:
                 continue
             us = mt['units']
-            for s1, s2 in zip(us, us[1:]):
+            # (... and every pair of the five youngest: how two units were
+            # spelled may matter for the quotient of their scales)
+            last = us[-5:]
+            for s1, s2 in list(zip(us, us[1:])) + [
+                    (x, y) for j, x in enumerate(last)
+                    for y in last[j + 2:]] + [
+                    (y, x) for j, x in enumerate(last) for y in last[j + 1:]]:
                 f1, f2 = model.units[s1]['factor'], model.units[s2]['factor']
                 try:
                     got = _frac((amount * env.units[s1])
